@@ -23,7 +23,9 @@ EXPLANATION = (
     "runtime/types/results.py and client/protocol/serializable_events.py. "
     "R1 keys: every tagged dict JsonSerializer.serialize_value writes has a deserialize_value branch on the same tag that reads only written keys and "
     "uses the inverse constructor (model_dump/model_validate, to_dict/from_dict); every key a model_serializer hook injects is routed back into the "
-    "same private attribute by the class's __init__ chain; the exception dict's keys are the ones the validator reads. "
+    "same private attribute by the class's __init__ chain; the exception dict's keys are the ones the validator reads; on the paths where the value is known to be a "
+    "plain dict / list (path facts of the return statements) both sides return the container rebuilt element-wise through serialize_value / deserialize_value "
+    "(comprehension, dict()/list() around a generator or map, or an empty accumulator filled by one unconditional loop over the value; element *values*, not keys). "
     "R2 name form: every function that writes `module + '.' + name` is paired with the resolver import_module_from_qualified_name; a writer that emits "
     "__qualname__ (dotted for nested classes) needs a resolver that walks attributes, a single rsplit/getattr resolver accepts __name__ only; the resolver's depth is decided by "
     "interpreting its AST on a three-level model program (pkg.mod.Top / Outer.Inner / Outer.Mid.Leaf; import_module and getattr are modelled). Once the resolver walks paths, a writer that "
@@ -289,9 +291,128 @@ def _name_writers(m) -> list[tuple[ast.AST, str, ast.AST]]:
 # ============================================================================ the check
 
 
+def _element_values(target: ast.AST, it: ast.AST, kind: str, param: str) -> set[str]:
+    """Expressions (normalised text) that denote *the element value* of the plain container `param` inside an iteration
+    `for target in it`: list -> the loop variable of `for x in param` (second of `enumerate(param)`); dict -> the second
+    variable of `for k, v in param.items()`, `param[k]` for `for k in param` / `param.keys()`, the variable of `param.values()`."""
+    def is_param(e: ast.AST) -> bool:
+        return isinstance(e, ast.Name) and e.id == param
+
+    def meth(e: ast.AST, name: str) -> bool:
+        return isinstance(e, ast.Call) and not e.args and not e.keywords and isinstance(e.func, ast.Attribute) and e.func.attr == name and is_param(e.func.value)
+
+    pair = target.elts if isinstance(target, (ast.Tuple, ast.List)) and len(target.elts) == 2 and all(isinstance(t, ast.Name) for t in target.elts) else None
+    if kind == "list":
+        if is_param(it) and isinstance(target, ast.Name):
+            return {target.id}
+        if isinstance(it, ast.Call) and call_name(it) == "enumerate" and len(it.args) == 1 and is_param(it.args[0]) and pair:
+            return {pair[1].id}
+        return set()
+    if meth(it, "items") and pair:
+        return {pair[1].id}
+    if (is_param(it) or meth(it, "keys")) and isinstance(target, ast.Name):
+        return {f"{param}[{target.id}]"}
+    if meth(it, "values") and isinstance(target, ast.Name):
+        return {target.id}  # only useful to a build that also walks the keys; kept for completeness
+    return set()
+
+
+def _through(e: ast.AST, callee: str, elems: set[str]) -> bool:
+    """`e` sends an element value through `callee` (…callee(<element value>)…)."""
+    return any(isinstance(c, ast.Call) and last(call_name(c)) == callee and len(c.args) == 1 and not c.keywords and " ".join(ast.unparse(c.args[0]).split()) in elems for c in ast.walk(e))
+
+
+def _rebuilds_through(fn: ast.AST, ret: ast.Return, kind: str, callee: str, param: str) -> bool:
+    """Is the value of `ret` a new container of `kind` holding, for every element of `param`, that element's value sent
+    through `callee`?  Recognised builds: comprehension (no filter); dict(...)/list(...) around a generator / comprehension /
+    map(callee, param); a local accumulator created empty and filled unconditionally by the for loop over `param` that
+    immediately precedes the return in the same block.  A returned local that is filled in place in any other way is an
+    AnchorError; any other returned expression (the raw parameter, a tagged dict, a constructor call) does not recurse."""
+    from ..astx import stmt_list_of
+
+    e = expand(ret.value, ret)
+    comp_kinds = {"dict": ast.DictComp, "list": ast.ListComp}
+
+    def comp_ok(c: ast.AST, as_kind: str) -> bool:
+        if len(c.generators) != 1 or c.generators[0].ifs or c.generators[0].is_async:
+            return False
+        elems = _element_values(c.generators[0].target, c.generators[0].iter, kind, param)
+        if as_kind == "dict":
+            if isinstance(c, ast.DictComp):
+                return _through(c.value, callee, elems)
+            return isinstance(c.elt, ast.Tuple) and len(c.elt.elts) == 2 and _through(c.elt.elts[1], callee, elems)
+        return not isinstance(c, ast.DictComp) and _through(c.elt, callee, elems)
+
+    if isinstance(e, comp_kinds[kind]):
+        return comp_ok(e, kind)
+    if isinstance(e, ast.Call) and call_name(e) == kind and len(e.args) == 1 and not e.keywords:
+        a = e.args[0]
+        if isinstance(a, (ast.GeneratorExp, ast.ListComp)):
+            return comp_ok(a, kind)
+        if kind == "list" and isinstance(a, ast.Call) and call_name(a) == "map" and len(a.args) == 2 and last(dotted(a.args[0])) == callee and isinstance(a.args[1], ast.Name) and a.args[1].id == param:
+            return True
+        return False
+    if not isinstance(e, ast.Name) or e.id == param:
+        return False
+    acc = e.id
+    uses = [n for n in ast.walk(fn) if isinstance(n, ast.Name) and n.id == acc]
+    if not any(isinstance(n.ctx, ast.Store) for n in uses):
+        return False  # not a local of this function
+    unknown = AnchorError(f"C18.R1: `{fn.name}` returns the local `{acc}` for a plain {kind}; how it is built is not a recognised element-wise rebuild (empty {kind}, then one unconditional for loop over `{param}` storing each element)")
+    loc = stmt_list_of(ret)
+    if loc is None:
+        raise unknown
+    lst, i = loc
+    loop = lst[i - 1] if i >= 1 else None
+    init_val = reaching_def(acc, loop) if loop is not None else None
+    if kind == "dict":
+        empty = isinstance(init_val, ast.Dict) and not init_val.keys
+    else:
+        empty = isinstance(init_val, ast.List) and not init_val.elts
+    empty = empty or (isinstance(init_val, ast.Call) and call_name(init_val) == kind and not init_val.args and not init_val.keywords)
+    if not empty or not isinstance(loop, ast.For) or loop.orelse or len(loop.body) != 1:
+        raise unknown
+    elems = _element_values(loop.target, loop.iter, kind, param)
+    st = loop.body[0]
+    stored = None
+    if kind == "dict" and isinstance(st, ast.Assign) and len(st.targets) == 1 and isinstance(st.targets[0], ast.Subscript) and isinstance(st.targets[0].value, ast.Name) and st.targets[0].value.id == acc:
+        stored = st.value
+    if kind == "list" and isinstance(st, ast.Expr) and isinstance(st.value, ast.Call) and isinstance(st.value.func, ast.Attribute) and st.value.func.attr == "append" \
+            and isinstance(st.value.func.value, ast.Name) and st.value.func.value.id == acc and len(st.value.args) == 1:
+        stored = st.value.args[0]
+    # the accumulator is touched nowhere else: its binding, the store in the loop, the return
+    if stored is None or len(uses) != 3 or any(isinstance(n, ast.Name) and n.id == acc for n in ast.walk(stored)):
+        raise unknown
+    return _through(stored, callee, elems)
+
+
+def _recurses_into(fn: ast.AST, kind: str, callee: str) -> bool:
+    """Does `fn(self, x)`, on the paths where `isinstance(x, kind)` is known to hold (path facts of the return statements,
+    so nested ifs / early returns / elif chains read alike), return a `kind` rebuilt element-wise through `callee`?"""
+    from ..astx import facts_at, has_fact
+    from ..cfg import CFG
+
+    if len(fn.args.args) < 2:
+        raise AnchorError(f"C18.R1: `{fn.name}` does not take (self, value)")
+    param = fn.args.args[1].arg
+    cfg = CFG(fn)
+    under, found = 0, False
+    for r in ast.walk(fn):
+        if not isinstance(r, ast.Return) or r.value is None or enclosing_function(r) is not fn:
+            continue
+        nodes = cfg.nodes_of(r)
+        if not nodes or not has_fact(facts_at(cfg, nodes[0]), f"isinstance({param}, {kind})"):
+            continue
+        under += 1
+        found = _rebuilds_through(fn, r, kind, callee, param) or found
+    if not under and any(isinstance(c, ast.Call) and last(call_name(c)) == callee for c in ast.walk(fn)) and any(isinstance(n, ast.Name) and n.id == kind for n in ast.walk(fn)):
+        raise AnchorError(f"C18.R1: `{fn.name}` mentions `{kind}` and calls `{callee}`, but no return statement is guarded by isinstance({param}, {kind}); the dispatch on plain containers is not recognised")
+    return found
+
+
 def run(chk) -> None:
     repo = chk.repo
-    ev, ser, ut, tk, rs, envm = (repo.module(x) for x in (EV, SER, UT, TK, RS, ENV))
+    ev, ser, ut, tk, rs, envm =(repo.module(x) for x in (EV, SER, UT, TK, RS, ENV))
 
     # ------------------------------------------------------------------ R8 writer completeness (every dump call on a writer path)
     _writer_completeness(chk, repo)
@@ -329,8 +450,8 @@ def run(chk) -> None:
                    reason="python-mode dump leaves non-JSON values (datetime, enum, nested models) in the payload")
     # recursion over plain containers is symmetric
     for kind, test in (("dict", "dict"), ("list", "list")):
-        w_rec = any(isinstance(c, (ast.DictComp, ast.ListComp)) and any(last(call_name(x)) == "serialize_value" for x in ast.walk(c)) and type(c).__name__.lower().startswith(kind) for c in ast.walk(wfn))
-        r_rec = any(isinstance(c, (ast.DictComp, ast.ListComp)) and any(last(call_name(x)) == "deserialize_value" for x in ast.walk(c)) and type(c).__name__.lower().startswith(kind) for c in ast.walk(rfn))
+        w_rec = _recurses_into(wfn, kind, "serialize_value")
+        r_rec = _recurses_into(rfn, kind, "deserialize_value")
         chk.ob("C18.R1", f"tagging recurses into {kind} values on both sides", w_rec == r_rec and w_rec, m=ser, node=wfn, fn=wfn, instance=f"recurse:{kind}",
                reason=f"writer recurses: {w_rec}, reader recurses: {r_rec}")
 
@@ -1075,6 +1196,21 @@ TWINS = [
     Twin("benign: explicit length test in the hook", _E, "        if self._data:\n            data[\"_data\"] = self._data", "        if len(self._data) > 0:\n            data[\"_data\"] = self._data", None),
     Twin("benign: .get for the message", _E, 'exc_message = data["exception_message"]', 'exc_message = data.get("exception_message", "")', None),
     Twin("benign: pydantic dict through a local", _S, '            return {\n                "__is_pydantic": True,', '            return {  # tagged\n                "__is_pydantic": True,', None),
+    # R1 recursion into plain containers (path facts + element-wise rebuild, comprehension or accumulator loop)
+    Twin("reader no longer untags list elements", _S, "            return [self.deserialize_value(item) for item in data]", "            return list(data)", "C18.R1"),
+    Twin("writer loop stores dict values untagged", _S, "            return {k: self.serialize_value(v) for k, v in value.items()}",
+         "            out: dict[Any, Any] = {}\n            for k, v in value.items():\n                out[k] = v\n            return out", "C18.R1"),
+    Twin("writer tags the keys, not the values", _S, "            return {k: self.serialize_value(v) for k, v in value.items()}", "            return {self.serialize_value(k): v for k, v in value.items()}", "C18.R1"),
+    Twin("writer list loop appends the raw element", _S, "            return [self.serialize_value(item) for item in value]",
+         "            out: list[Any] = []\n            for item in value:\n                out.append(item)\n            return out", "C18.R1"),
+    Twin("list recursion moved under the dict test (never reached for lists)", _S, "        if isinstance(value, list):\n            return [self.serialize_value(item) for item in value]", "        if isinstance(value, dict):\n            return [self.serialize_value(item) for item in value]", "C18.R1"),
+    Twin("benign: writer comprehensions as accumulator loops", _S,
+         "            return {k: self.serialize_value(v) for k, v in value.items()}\n\n        if isinstance(value, list):\n            return [self.serialize_value(item) for item in value]",
+         "            serialized_dict: dict[Any, Any] = {}\n            for key, item in value.items():\n                serialized_dict[key] = self.serialize_value(item)\n            return serialized_dict\n\n        if isinstance(value, list):\n            serialized_list: list[Any] = []\n            for item in value:\n                serialized_list.append(self.serialize_value(item))\n            return serialized_list", None),
+    Twin("benign: reader as early returns, list first", _S,
+         "            return {k: self.deserialize_value(v) for k, v in data.items()}\n        elif isinstance(data, list):\n            return [self.deserialize_value(item) for item in data]\n        return data",
+         "            return {k: self.deserialize_value(v) for k, v in data.items()}\n        if not isinstance(data, list):\n            return data\n        return list(map(self.deserialize_value, data))", None),
+    Twin("benign: dict() around a generator, keys walked", _S, "            return {k: self.serialize_value(v) for k, v in value.items()}", "            return dict((k, self.serialize_value(value[k])) for k in value)", None),
     # R2 name forms
     Twin("attribute walk removed from the resolver (revert a9c0760)", _U,
          "        parts = qualified_name.split(\".\")\n        for i in range(len(parts) - 2, 0, -1):\n            try:\n                obj = import_module(\".\".join(parts[:i]))\n            except ImportError:\n                continue\n            try:\n                for name in parts[i:]:\n                    obj = getattr(obj, name)\n                return obj\n            except AttributeError:\n                break\n",
